@@ -200,6 +200,14 @@ def opsSem : Sexp → Option Sexp
       -- `ctx` (the shape of input) only refines the classifier of a rejection
       some (if compatible x y then .list [.atom "accepted", .atom "compatible"]
             else .list [.atom "rejected", .atom ("solvers_contradict@" ++ ctx), .list []])
+  | .list [.atom "judge-answer", p, g, nvars, fuel, sig, depth, maxc, slg, ans, .atom ctx] => do
+      let P ← programOfSexp? p
+      let pool := termsUpTo (← sigOfSexp? sig) (← depth.nat?)
+      let cands := (assignments pool (← nvars.nat?)).take (← maxc.nat?)
+      -- `ctx` (which solver, which shape of input) only refines the classifier of a rejection
+      some (match (judgeAnswer P (← fuel.nat?) (← goalOfSexp? g) cands (← bool? slg) (answerOfSexp ans)).toSexp with
+        | .list [.atom "rejected", .atom c, d] => .list [.atom "rejected", .atom (c ++ "@" ++ ctx), d]
+        | r => r)
   | .list [.atom "judge-answer", p, g, nvars, fuel, sig, depth, maxc, slg, ans] => do
       let P ← programOfSexp? p
       let pool := termsUpTo (← sigOfSexp? sig) (← depth.nat?)
